@@ -4,17 +4,48 @@ import json, os, subprocess
 VERIF = os.path.dirname(os.path.dirname(os.path.abspath(__file__)))
 hooks_commit = subprocess.run(['git', '-C', '/repo', 'log', '--format=%H', '--grep=verif hooks', '-n', '1'], capture_output=True, text=True).stdout.strip()
 
+PARTIAL = 'partial: '
 CHECKS = {
+ 'C01': dict(ref='§7 C01', text=PARTIAL + 'proved in Coq: the reference semantics RefSem.v is a function whose finished runs do not change with more budget (C01_ref_fuel_mono) and whose step count bounds the trace (C01_ref_steps); the compile-correctness simulation C01_full is NOT proved. The property is decided on explored programs by the reference interpreter extracted from RefSem.v against compile+run of the implementation (final values of every live activation, budget clause).',
+             note='trusted: Coq kernel; RefSem.v as the statement of the language semantics (DESIGN Appendix A); the model front end that feeds it (tied by C02/C04 correspondence); exploration bounded'),
+ 'C02': dict(ref='§7 C02', text='theorems for all inputs on the model: extraction, parsing and code generation are total (no undefined operation, budgets suffice): C02_extract_total, C02_extract_eof, C02_parse_total, C02_parser_shape, C02_gen_total; result shape C02_shape and forwarding of earlier errors C02_errors_forwarded; scanning total (C15_terminates). Macro application totality (C02_apply_total) is in progress (rests on C13_driver_safe). Tie: every stage on the malformed stream, ASan/UBSan/LSan build with timeout; known finding D11 (native stack depth) reproduced on every run.',
+             note=PARTIAL + 'real memory safety, leaks and wall time are runtime facts observed on explored inputs; the Gallina model has explicit UB outcomes for every unchecked access of the C++ (DESIGN Appendix B)'),
+ 'C03': dict(ref='§7 C03', text='theorems: the bytecode verifier is sound for ALL programs and ALL runs and debugger histories (C03_wf_safe, C03_wf_observe, C03_wf_safe_hist, C03_wf_meaning): a program accepted by wf_program never makes the VM leave its arrays. ' + PARTIAL + 'that the generator only emits wf programs (C03_gen_wf) is not proved: every emitted program of the exploration is validated by the extracted verified checker and executed under ASan/UBSan.',
+             note='trusted: Coq kernel; VMModel/VMCheck tied to vm.cpp by the VM correspondence; translation validation bounded by the generator of sources'),
+ 'C04': dict(ref='§7 C04', text=PARTIAL + 'proved for all inputs: the rejecting half (C04_reject, C04_errors_forwarded), parser totality, callees are earlier definitions. The equivalence with the documented grammar and the static rules is stated (AcceptStatements.v) and decided on explored token sequences by an independent recogniser (grammar + static rules + sugar) on the specification scanner\'s tokens.',
+             note='trusted: Coq kernel; SpecGrammar.v / explore_accept.py as transcriptions of the documented grammar; exploration bounded'),
  'C05': dict(ref='§7 C05', text='Theorems C05_exec_core, C05_ops_core, C05_transparent, C05_same_result (Coq, closed under the global context) prove for ALL programs with consistent tables and ALL API histories that the debugged machine is always at a point of the uninterrupted run and ends with the same values; the model is tied to vm.cpp by differential runs of exhaustive short and random long histories (ip, path hash, views), and a path oracle evaluates the implementation alone.',
-             note='trusted: Coq kernel; hand-written VMModel.v tied to VM/src/vm.cpp only on the explored histories; hypothesis tables_ok is what C08 delivers for compiled programs'),
+             note='trusted: Coq kernel; hand-written VMModel.v tied to VM/src/vm.cpp only on the explored histories; hypothesis tables_ok is what C08_gen_tables delivers for generated programs'),
  'C06': dict(ref='§7 C06', text='Theorems C06_execute, C06_stop_iff, C06_location, C06_enable, C06_enabled prove for all histories that execute stops exactly at the first stop site (site of an enabled line, or any site while stepping) or HALT, reports that site\'s location, succeeds exactly for available locations and keeps the enabled set equal to the fold of successful requests; tie: differential histories (replies, ip, enabled set, location, opcodes at sites) plus an independent stop-position oracle on the implementation.',
              note='trusted: Coq kernel; VMModel.v tied to vm.cpp on explored histories'),
+ 'C07': dict(ref='§7 C07', text=PARTIAL + 'proved: in stepping mode the machine stops exactly on the breakpoint sites of the instruction path and reports their locations, which are available locations (C07_stops_are_sites); available locations are never in the hidden file and are positions of tree nodes / tokens (C08_locations_ast, C08_parser_positions). That the sites sit where the source semantics says (C07_full) is decided on explored canonical-layout programs: complete stepping run of the implementation against the stop trace and views of the reference semantics.',
+             note='trusted: Coq kernel; RefSem.v including its rule for where a new line starts; exploration bounded'),
+ 'C08': dict(ref='§7 C08', text='theorems for ALL syntax trees: the generator\'s tables are consistent and contain no BREAK (C08_gen_tables), tables_ok means inverse tables and listed <=> break opcode (C08_tables_ok_meaning), every available location is outside the hidden file and is the position of a tree node (C08_locations_ast), every tree node stands at a token of the parsed stream (C08_parser_positions). Tie: tables of every emitted program against the generator model; oracle: extracted checker + token positions of the scanned text.',
+             note='trusted: Coq kernel; GenModel.v/Parser.v tied to gen.cpp/parse.cpp on explored sources; the step "macro expansion keeps token positions" is not proved'),
+ 'C09': dict(ref='§7 C09', text='theorems for all streams and macro sets: the step taken is a reported candidate that no reported candidate beats (priority, leftmost, longest), everything outside the range is untouched (C09_choice, C09_none, C09_bins_ok), the replacement is the body with $n -> slot n (C09_body), detection is leftmost (C09_leftmost), iteration = steps until none or budget (C09_iterate); C09_refuted_at_pinned documents D10. That a detection is a match of the pattern (C09_detect_sound) is being proved on top of C13_sound. Tie: scan+extract+apply at budget 1; oracle: brute-force matcher enumerating all valid steps.',
+             note=PARTIAL + 'completeness of detection (every match is found) rests on LR completeness, not proved; decided on explored streams'),
+ 'C10': dict(ref='§7 C10', text='theorems: decimal rendering is injective, temporary names of different passes differ for ANY file names and texts, different indices differ, a renamed temporary is never a scannable identifier, a loop counter or "error" (C10_dec_inj, C10_pass_inj, C10_index_inj, C10_not_user), and every pass number is used by at most one rewriting step (C10_one_rewrite_per_pass). Name format pieces are translated from macro.cpp on every run. Tie: apply at budgets 1..11 on nested/repeated/mutually nested uses.',
+             note='trusted: Coq kernel; same-file hypothesis for bodies (an include inside a macro body is outside it)'),
+ 'C11': dict(ref='§7 C11', text='theorems for every budget and macro set: at most `budget` rewriting steps with consecutive pass numbers (C11_steps), an unfinished expansion always carries the too-many-substitutions error (C11_error, C11_pass_irrelevant), one step grows the stream by at most |body| * max slot (C11_growth_step); the budget constant 1024 and its use in parse() are translated. Tie: apply at budgets 1..20 and 1024 on self-reproducing and terminating sets.',
+             note='trusted: Coq kernel; MacroApply.v tied to macro.cpp on explored inputs'),
+ 'C12': dict(ref='§7 C12', text='theorems: a conflicting macro yields exactly one non-linear error at its first pattern token and is filtered out, the others are unaffected (C12_reported, C12_others_unaffected); finite sweeps proved by vm_compute inside Coq: every pattern of length <= 3 over the 12-symbol alphabet ending in <P>/<ARGS> and every pattern of length <= 3 ending in `<P> ;` / `<ARGS> ,` is rejected; `<P> ; <ARGS> +` and other prefix-deterministic patterns are accepted (C12_open_ended_bounded, C12_trailing_sep_bounded, C12_accepted_examples). ' + PARTIAL + 'the unbounded families are not proved.',
+             note='usability is by definition conflict-freedom of the canonical LR(1) construction in prefix mode = the model; its agreement with lrparser.hpp is tied exhaustively for patterns up to length 2-3'),
+ 'C13': dict(ref='§7 C13', text='theorems for all grammars built through createNonTerminal/add: FIRST sets are sound (sentential forms) and complete and the loop terminates within its budget (C13_first_sound, C13_first_complete, C13_first_terminates, C13_maxterm, C13_first_string); the generated parser is SOUND — an accepted input has a derivation tree of the start symbol over the consumed part (a prefix in prefix mode) and the value is the fold of that tree, last symbol first (C13_sound); the driver never leaves its tables or stacks (C13_driver_safe); generation is total (C13_generate_total). Three first drafts are refuted in Coq (unproductive symbols; foreign non-terminals). ' + PARTIAL + 'completeness and ambiguity => conflict are not proved; decided by a brute-force derivation counter on all small grammars.',
+             note='trusted: Coq kernel; Grammar.v/LR.v tied to grammar.cpp/lrdea.cpp/lrparser.hpp including item sets in the implementation\'s state numbering'),
+ 'C14': dict(ref='§7 C14', text='theorems: the derivative matcher decides Matches (C14_matcher); the longest-match search computes the unique maximal munch for every rule list (C14_maxmunch); lexing is the unique tokenisation (C14_lex); the rule list translated from lexer.l agrees rule by rule with the documented table, has a catch-all, yields all 99 spellings and one-byte operators (C14_rules, C14_spellings, C14_unknown_byte, C14_rules_agree_meaning); scan = splice of separately lexed files, one EOF token (C14_scan, C14_eof). Tie: scanner of both build configurations (committed lex.yy.c / regenerated by flex now) against the specification scanner on all short strings; committed files byte-compared with a fresh flex run.',
+             note=PARTIAL + 'the flex DFA tables and skeleton are not verified against the rules for all strings (C14_dfa_equiv open): tied by exhaustive short strings, every spelling of the rule table, random longer strings'),
+ 'C15': dict(ref='§7 C15', text='theorems for all rule lists and file maps: scanning terminates within the include-depth budget |files|+1 and is never undefined (C15_terminates), scan = splice with the active-stack rule (C15_scan_is_splice), reported missing files are absent (C15_missing_sound), no directive => no error (C15_no_include). Tie/oracle: all include graphs over 2-3 files (cycles, self-includes, diamonds, missing targets, missing main) and random 3-4 file graphs against the specification splice; file requests of the whole compilation.',
+             note='trusted: Coq kernel; Scan.v tied to scan.cpp on explored graphs'),
+ 'C16': dict(ref='§7 C16', text='theorems: with acyclic calls the activation stack of a verified program never exceeds routines+1 for all runs (C16_depth); in every source whose static rules hold, callees are earlier definitions and the reference machine never holds more activations than routines (C16_calls_earlier, C16_ref_depth). ' + PARTIAL + 'that every emitted program is acyclic (generator invariant) and that LOOP-only programs halt on the VM are decided on explored programs (extracted acyclic_calls checker, depth observation at every instruction, reference run).',
+             note='trusted: Coq kernel; exploration bounded'),
  'C17': dict(ref='§7 C17', text='Theorems rel_reachable, C17_reset (reset s = init p as whole records, code included), C17_after, C17_halt for all histories; tie: full hidden state after every reset and no-change after the end, compared with the model and checked against a fresh machine.',
              note='trusted: Coq kernel; VMModel.v tied to vm.cpp on explored histories; needs the THEO_VERIF_HOOKS accessors'),
- 'C19': dict(ref='§7 C19', text='Theorems C19_step and C19: after any history the frames of the live activations tile data exactly (data length = sum of frame sizes <= depth * max frame), for all programs whose PREPAREs have non-negative counts; C19_refuted_at_pinned documents the repaired defect D7; tie: frame geometry and data length after every call and at every instruction boundary (XS sweep).',
+ 'C18': dict(ref='§7 C18', text=PARTIAL + 'by nature. Machine-checked: the writable objects with static storage duration of the compiled objects (nm, regenerated every run) are exactly the two read-only message tables (C18_statics); the model is a function of its inputs. Thread schedules and histories are SAMPLED: byte-wise equality of serialised results against fresh-process references across random orders, live VMs and 8 threads, plain and ThreadSanitizer builds.',
+             note='runtime behaviour (schedules, data races) cannot be exhibited by a Gallina model; TSan detects, does not exclude'),
+ 'C19': dict(ref='§7 C19', text='Theorems C19_step and C19: after any history the frames of the live activations tile data exactly (data length = sum of frame sizes <= depth * max frame), for all programs whose PREPAREs have non-negative counts (true of generated code: C20_consts); C19_refuted_at_pinned documents the repaired defect D7; tie: frame geometry and data length after every call and at every instruction boundary (XS sweep).',
              note='trusted: Coq kernel; VMModel.v tied to vm.cpp on explored runs'),
- 'C20': dict(ref='§7 C20', text='Theorems C20_range (all stored values in [0,2^31-1] after any history), C20_no_overflow, C20_sub, C20_add; C20_refuted_at_pinned documents D8; tie: values after every call on programs approaching 2^31, sanitizer build for the arithmetic itself.',
-             note='trusted: Coq kernel; model of int arithmetic (clamp in 64 bits) tied to vm.cpp on explored runs; compile-time range errors (C20_literals) are covered by the compiler model only once it is proved (see DESIGN §7 C20)'),
+ 'C20': dict(ref='§7 C20', text='Theorems C20_range (all stored values in [0,2^31-1] after any history), C20_no_overflow, C20_sub, C20_add, and C20_consts (generated code only loads in-range constants and creates non-negative frames, for all trees); C20_refuted_at_pinned documents D8; tie: values after every call on programs approaching 2^31.',
+             note='trusted: Coq kernel; model of int arithmetic (clamp in 64 bits) tied to vm.cpp on explored runs; range errors for literals/priorities are part of the compile correspondence (C02/C04)'),
 }
 ALL = ['C%02d' % i for i in range(1, 21)]
 m = {
